@@ -16,10 +16,10 @@ import (
 const raHeader = "##! Please refer to the documentation at\n##! https://coreruleset.org/docs/development/regex_assembly/.\n"
 
 type fmtCase struct {
-	Content string `json:"content"`
-	Lane    string `json:"lane"`     // structured | hostile | bytes
-	Balanced bool  `json:"balanced"` // block markers balance and every directive is well formed: the exact layout model applies
-	Lint    bool   `json:"lint"`     // i flag + upper-case class: --check is only required to fail
+	Content  string `json:"content"`
+	Lane     string `json:"lane"`     // structured | hostile | bytes
+	Balanced bool   `json:"balanced"` // block markers balance and every directive is well formed: the exact layout model applies
+	Lint     bool   `json:"lint"`     // i flag + upper-case class: --check is only required to fail
 }
 
 // fmtModel computes the canonical layout for structured (balanced, well-formed) content.
@@ -154,6 +154,9 @@ func fmtGen(r *rand.Rand, lane string) *fmtCase {
 		}
 		depth := 0
 		n := r.Intn(16)
+		if core.Chance(r, 1, 12) {
+			n = 150 + r.Intn(350) // a file well above 4 KiB
+		}
 		for i := 0; i < n; i++ {
 			k := r.Intn(20)
 			if lane == "hostile" && core.Chance(r, 1, 4) {
@@ -252,20 +255,78 @@ func fmtGen(r *rand.Rand, lane string) *fmtCase {
 
 func fmtTree(c *fmtCase) sut.Tree {
 	return sut.Tree{
-		"regex-assembly/932100.ra":       c.Content,
-		"regex-assembly/include/inc1.ra": "alpha\nbeta\n##! comment in include\n  gamma\n",
-		"regex-assembly/include/inc2.ra": "delta\nepsilons\n",
-		"regex-assembly/exclude/exc1.ra": "beta\n",
-		"regex-assembly/exclude/exc2.ra": "gamma\n",
-		"regex-assembly/toolchain.yaml":  crsToolchainYAML,
+		"regex-assembly/932100.ra":                      c.Content,
+		"regex-assembly/include/inc1.ra":                "alpha\nbeta\n##! comment in include\n  gamma\n",
+		"regex-assembly/include/inc2.ra":                "delta\nepsilons\n",
+		"regex-assembly/exclude/exc1.ra":                "beta\n",
+		"regex-assembly/exclude/exc2.ra":                "gamma\n",
+		"regex-assembly/toolchain.yaml":                 crsToolchainYAML,
 		"rules/REQUEST-932-APPLICATION-ATTACK-RCE.conf": "SecRule ARGS \"@rx old\" \\\n    \"id:932100,\\\n    phase:2\"\n",
 	}
 }
 
 const fmtTarget = "regex-assembly/932100.ra"
 
+// c09All: format --check --all must fail exactly when some file is not canonical, wherever that file sits in the walk;
+// format --all must leave every file canonical.
+func c09All(env *core.Env, c *fmtCase) core.Verdict {
+	root := emptyRoot(env)
+	defer rmCase(root)
+	rng := rand.New(rand.NewSource(int64(len(c.Content))*7919 + 17))
+	names := []string{"regex-assembly/920100.ra", "regex-assembly/932100.ra", "regex-assembly/942100-chain1.ra", "regex-assembly/exclude/exc1.ra", "regex-assembly/include/inc1.ra", "regex-assembly/include/zz-last.ra"}
+	contents := map[string]string{}
+	tree := sut.Tree{}
+	anyDirty := false
+	dirtyAt := rng.Intn(len(names) + 1) // == len(names): none
+	for i, n := range names {
+		body := fmtGen(rng, "structured").Content
+		canon := fmtModel(body)
+		if i == dirtyAt {
+			contents[n] = c.Content
+			if fmtModel(c.Content) != c.Content {
+				anyDirty = true
+			}
+		} else {
+			contents[n] = canon
+		}
+		tree[n] = contents[n]
+	}
+	if err := tree.Write(root); err != nil {
+		return core.Incon("cannot write tree: %v", err)
+	}
+	v := core.Verdict{Status: core.Held, Nontrivial: true, Features: []string{"lane:all", fmt.Sprintf("dirty-file-index:%d", dirtyAt)}, Counts: map[string]int{}}
+	before := sut.Snap(root)
+	for _, mode := range [][]string{nil, {"-o", "github"}} {
+		chk := cli(env, root, nil, append(append([]string{}, mode...), "regex", "format", "--check", "--all")...)
+		if d := sut.Diff(before, sut.Snap(root)); len(d) > 0 {
+			return core.Viol("check-writes", "format --check --all modified the tree: %v", d)
+		}
+		if (chk.Exit != 0) != anyDirty {
+			return core.Viol("check-all-disagrees", "format --check --all %v exit=%d but a non-canonical file %s (position %d of %d in the tree)\nstdout=%s", mode, chk.Exit, map[bool]string{true: "exists", false: "does not exist"}[anyDirty], dirtyAt+1, len(names), core.Q(string(chk.Stdout)))
+		}
+	}
+	f := cli(env, root, nil, "regex", "format", "--all")
+	if f.Exit != 0 {
+		return core.Viol("format-all-fails", "format --all fails on well-formed files: %s", describe(f))
+	}
+	for _, n := range names {
+		got, _ := sut.Read(root, n)
+		if want := fmtModel(contents[n]); got != want {
+			return core.Viol("format-all-layout", "after format --all %s is not canonical\n%s", n, firstDiff(got, want))
+		}
+	}
+	chk := cli(env, root, nil, "regex", "format", "--check", "--all")
+	if chk.Exit != 0 {
+		return core.Viol("check-after-fails", "format --check --all fails right after format --all: %s", describe(chk))
+	}
+	return v
+}
+
 func c09Check(env *core.Env, cc core.Case) core.Verdict {
 	c := cc.(*fmtCase)
+	if c.Lane == "all" {
+		return c09All(env, c)
+	}
 	root := emptyRoot(env)
 	defer rmCase(root)
 	if err := fmtTree(c).Write(root); err != nil {
@@ -486,9 +547,17 @@ func init() {
 	register(&core.Property{
 		ID:    "C09",
 		Level: "exploration",
-		Rule: "generated .ra byte contents in three lanes — structured (balanced blocks, every directive kind with random indentation, inner spacing, CRLF, header already present/partial/double, EOF variants), hostile (near-miss directives, unbalanced markers, lint triggers) and bytes (fragments) — plus pinned edge files (empty, white-space only, header only) are formatted by the built CLI 3 times with --check before and after. " +
+		Rule: "generated .ra byte contents in three lanes — structured (balanced blocks, every directive kind with random indentation, inner spacing, CRLF, header already present/partial/double, EOF variants), hostile (near-miss directives, unbalanced markers, lint triggers) and bytes (fragments) — plus pinned edge files (empty, white-space only, header only) are formatted by the built CLI 3 times with --check before and after (one structured file in twelve has 150..500 lines, i.e. is well above 4 KiB); plus trees of six files (rule files, exclude/, include/) in which at most one file, at a PRNG-chosen position of the walk, is not canonical: format --check --all (text and github) must fail exactly then, format --all must leave every file equal to the layout model. " +
 			"Oracle: f(f(x)) = f(x) = f^3(x) byte-wise; --check exit 0 iff f(x) = x and never writes (tree snapshot); header+blank line at the top, exactly one final newline, no CR at line ends, flag/prefix/suffix lines at column 0; for structured cases the output must equal an independent line model of the canonical layout byte for byte. Non-trivial = >= 2 lines and format changed the file. Domain: line terminators are LF or CRLF (no stray CR).",
-		Cases:         func(env *core.Env, rng *rand.Rand) []core.Case { return fmtCases(env, rng, 300, 6000) },
+		Cases: func(env *core.Env, rng *rand.Rand) []core.Case {
+			cs := fmtCases(env, rng, 300, 6000)
+			for i, n := 0, env.N(60, 1200); i < n; i++ {
+				c := fmtGen(rng, "structured")
+				c.Lane = "all"
+				cs = append(cs, c)
+			}
+			return cs
+		},
 		Check:         c09Check,
 		Decode:        decoder[fmtCase](),
 		MinNontrivial: 60,
